@@ -1,3 +1,8 @@
 module goa.design/clue
 
 go 1.22.0
+
+require (
+	goa.design/goa/v3 v3.0.0
+	google.golang.org/grpc v1.67.1
+)
